@@ -83,6 +83,7 @@ type endState struct {
 	done        bool
 	rdl         time.Time
 	wdl         time.Time
+	wdlExpired  bool // the harness let virtual time pass the armed write deadline
 	fired       bool
 	firedCount  int
 	reads       int
@@ -276,6 +277,10 @@ func (c *Conn) Write(b []byte) (int, error) {
 	if n.e[c.s.Peer()].closed {
 		return 0, opErr("write", syscall.EPIPE)
 	}
+	if e.wdlExpired && !e.wdl.IsZero() {
+		// virtual time has passed the write deadline that is (still) armed
+		return 0, opErr("write", os.ErrDeadlineExceeded)
+	}
 	n.seq++
 	n.gen++
 	k := len(b)
@@ -399,6 +404,7 @@ func (c *Conn) setDeadline(kind string, t time.Time) error {
 	}
 	if kind != "r" {
 		e.wdl = t
+		e.wdlExpired = false
 	}
 	return nil
 }
@@ -628,6 +634,26 @@ func (n *Net) Bracket(s Side, id int) {
 	n.mu.Lock()
 	n.e[s].bracket = id
 	n.mu.Unlock()
+}
+
+// WriteDeadline returns the write deadline currently armed on side s (zero: none).
+func (n *Net) WriteDeadline(s Side) time.Time {
+	n.mu.Lock()
+	defer n.mu.Unlock()
+	return n.e[s].wdl
+}
+
+// ExpireWriteDeadline lets virtual time pass the write deadline armed on side s, if any: Writes then fail
+// with a timeout until the deadline is set again (what a real socket does once the instant has passed).
+// Reports whether a write deadline was armed.
+func (n *Net) ExpireWriteDeadline(s Side) bool {
+	n.mu.Lock()
+	defer n.mu.Unlock()
+	if n.e[s].wdl.IsZero() {
+		return false
+	}
+	n.e[s].wdlExpired = true
+	return true
 }
 
 // ReadDeadline returns the read deadline currently armed on side s.
